@@ -1251,6 +1251,131 @@ run_reflector(void *arg)
 	vh_fini();
 }
 
+
+// ---- a requester that is gone when its answer comes back -------------------------------------------------------
+// front clients -> [device ->] replier.  n clients in turn send a request and leave before it is answered
+// (the answer finds no connection and is discarded); then a client that stays must still get its own answer,
+// body unchanged - through a device, and with the harness itself as the application of a raw REP / raw
+// RESPONDENT socket (receive, remember the message, send it back later)
+static void
+run_departed(void *arg)
+{
+	const fam *f      = &FAM[(intptr_t) arg & 1];
+	int        direct = ((intptr_t) arg & 2) != 0; // no device: the harness serves a raw socket
+	int        ngone  = 1 + vs_choose(VK_ENV, 3);
+	int        order  = vs_choose(VK_ENV, 2);      // answers to the departed before / after the live request arrives
+	vh_init(0);
+	g_teardown = 0;
+	nng_socket back;
+	dev        d;
+	memset(&d, 0, sizeof(d));
+	if (direct) {
+		VH_OK(f->dev_in(&back));
+		VH_OK(nng_listen(back, "inproc://c13dp-front", NULL, 0));
+	} else {
+		VH_OK(f->back(&back));
+		VH_OK(nng_listen(back, "inproc://c13dp-back", NULL, 0));
+		dev_start(&d, f, 8);
+		VH_OK(nng_listen(d.in, "inproc://c13dp-front", NULL, 0));
+		VH_OK(nng_dial(d.out, "inproc://c13dp-back", NULL, 0));
+		nng_device_aio(d.aio, d.in, d.out);
+	}
+	VH_OK(nng_socket_set_ms(back, NNG_OPT_RECVTIMEO, 100));
+	VH_OK(nng_socket_set_ms(back, NNG_OPT_SENDTIMEO, 100));
+	vs_settle();
+	nng_msg *held[4];
+	int      nheld = 0;
+	for (int i = 0; i < ngone; i++) {
+		nng_socket c;
+		nng_msg   *m;
+		char       tag[8];
+		VH_OK(f->front(&c));
+		VH_OK(nng_dial(c, "inproc://c13dp-front", NULL, 0));
+		vs_settle();
+		snprintf(tag, sizeof(tag), "gone%d", i);
+		VH_OK(nng_msg_alloc(&m, 0));
+		VH_OK(nng_msg_append(m, tag, 5));
+		if (nng_sendmsg(c, m, NNG_FLAG_NONBLOCK) != 0)
+			vs_fail("harness:departed", "request of client %d refused", i);
+		vs_settle();
+		if (nng_recvmsg(back, &held[nheld], 0) != 0)
+			vs_fail("C13:chain:lost", "%s: request of client %d did not reach the replier", f->name, i);
+		if (nng_msg_len(held[nheld]) != 5 || memcmp(nng_msg_body(held[nheld]), tag, 5) != 0)
+			vs_fail("C13:chain:body", "%s: request body altered on the way", f->name);
+		nheld++;
+		nng_socket_close(c); // leaves before the answer
+		vs_settle();
+		if (!direct && !order) { // a cooked replier answers one request at a time
+			if (nng_sendmsg(back, held[--nheld], 0) != 0)
+				nng_msg_free(held[nheld]);
+			vs_settle();
+		}
+	}
+	nng_socket live;
+	nng_msg   *m, *rq2 = NULL;
+	VH_OK(f->front(&live));
+	VH_OK(nng_socket_set_ms(live, NNG_OPT_RECVTIMEO, 300));
+	VH_OK(nng_dial(live, "inproc://c13dp-front", NULL, 0));
+	vs_settle();
+	if (direct && !order)
+		while (nheld > 0) {
+			if (nng_sendmsg(back, held[--nheld], 0) != 0)
+				nng_msg_free(held[nheld]);
+			vs_settle();
+		}
+	VH_OK(nng_msg_alloc(&m, 0));
+	VH_OK(nng_msg_append(m, "alive", 5));
+	if (nng_sendmsg(live, m, NNG_FLAG_NONBLOCK) != 0)
+		vs_fail("harness:departed", "request of the live client refused");
+	vs_settle();
+	if (direct) {
+		// the raw socket's application: the live request is read first, then all answers go out,
+		// those to departed clients before the live one
+		if (nng_recvmsg(back, &rq2, 0) != 0)
+			vs_fail("C13:chain:lost", "%s: request of the live client did not arrive", f->name);
+		while (nheld > 0) {
+			if (nng_sendmsg(back, held[--nheld], 0) != 0)
+				nng_msg_free(held[nheld]);
+			vs_settle();
+		}
+	} else {
+		while (nheld > 0) // (cooked replier, order 1: the unanswered requests were superseded)
+			nng_msg_free(held[--nheld]);
+		if (nng_recvmsg(back, &rq2, 0) != 0)
+			vs_fail("C13:chain:lost", "%s: request of the live client did not arrive", f->name);
+	}
+	if (nng_msg_len(rq2) != 5 || memcmp(nng_msg_body(rq2), "alive", 5) != 0)
+		vs_fail("C13:chain:body", "%s: live request body altered", f->name);
+	nng_msg_clear(rq2);
+	VH_OK(nng_msg_append(rq2, "ALIVE-answer", 12));
+	int srv = nng_sendmsg(back, rq2, 0);
+	if (srv != 0) {
+		nng_msg_free(rq2);
+		vs_fail("C13:chain:reply-lost",
+		    "%s%s: after %d answer(s) to clients that had left, the replier cannot send the live client's "
+		    "answer: %s",
+		    f->name, direct ? " (raw socket)" : " (device)", ngone, nng_strerror(srv));
+	}
+	vs_settle();
+	nng_msg *ans = NULL;
+	int      rv  = nng_recvmsg(live, &ans, 0);
+	if (rv != 0)
+		vs_fail("C13:chain:reply-lost",
+		    "%s%s: %d client(s) left before their answers came back; the next client's answer never "
+		    "arrives (%s)",
+		    f->name, direct ? " (raw socket)" : " (device)", ngone, nng_strerror(rv));
+	if (nng_msg_len(ans) != 12 || memcmp(nng_msg_body(ans), "ALIVE-answer", 12) != 0)
+		vs_fail("C13:chain:body", "%s: answer body altered (%zu bytes)", f->name, nng_msg_len(ans));
+	nng_msg_free(ans);
+	vs_outcome("%s %s gone%d order%d", f->name, direct ? "raw" : "dev", ngone, order);
+	g_teardown = 1;
+	nng_socket_close(live);
+	if (!direct)
+		dev_stop(&d);
+	nng_socket_close(back);
+	vh_fini();
+}
+
 static void
 explore_b(const char *name, void (*fn)(void *), void *arg, int preempt, int sw,
     int total, double deadline)
@@ -1293,6 +1418,10 @@ main(int argc, char **argv)
 	explore("loop-reqrep", run_loop, (void *) 0);
 	explore("loop-survey", run_loop, (void *) 1);
 	explore("backtrace", run_bt, NULL);
+	explore("departed-requester-device-reqrep", run_departed, (void *) 0);
+	explore("departed-requester-device-survey", run_departed, (void *) 1);
+	explore("departed-requester-raw-reqrep", run_departed, (void *) 2);
+	explore("departed-requester-raw-survey", run_departed, (void *) 3);
 	for (int i = 0; i < NPF; i++) {
 		char nm[40];
 		snprintf(nm, sizeof(nm), "plain-device-%s", PF[i].name);
